@@ -27,9 +27,10 @@ TEST_LANGS = ["rust", "c", "cpp", "csharp", "go", "moonbit", "d"]  # crates/test
 GAPS = ("todo", "unimplemented")
 DIVERGE = ("todo", "unimplemented", "panic", "unreachable")
 
-# number of sites confirmed by reading the tree (2026-09): floors
-FLOOR_TOTAL = 136
-FLOOR_CRATE = {"core": 8, "rust": 3, "c": 21, "cpp": 47, "csharp": 11, "go": 9, "moonbit": 8, "d": 29, "markdown": 0}
+# number of sites confirmed by reading the tree (2026-09, after the fix: commits 7939b17 markdown and a81c056
+# Generator::deallocate): floors
+FLOOR_TOTAL = 135
+FLOOR_CRATE = {"core": 7, "rust": 3, "c": 21, "cpp": 47, "csharp": 11, "go": 9, "moonbit": 8, "d": 29, "markdown": 0}
 
 # ------------------------------------------------------------------------------------------------ features
 # A *feature* is what a should_fail_verify exclusion can declare.  `probe` is the (test name, async flag,
